@@ -114,17 +114,14 @@ theorem fireExpire_deferred (w : W) (rid : Nat) (hm : w.k.hasRec rid) (hl : w.db
   unfold W.fireExpire
   simp only [he, hd, Bool.false_eq_true, if_false, if_true]
   rw [addExpried_off_leader _ _ (by simpa using hl)]
-  have h1 : (w.k.modRec rid fun r => { r with eSched := none }).hasRec rid := by
+  have h2 : (w.k.modRec rid fun r => { r with expT := w.db.now + 30 }).hasRec rid := by
     rw [hasRec_modRec _ _ _ _ (by intro _; rfl)]; exact hm
-  have h2 : ((w.k.modRec rid fun r => { r with eSched := none }).modRec rid fun r => { r with expT := w.db.now + 30 }).hasRec rid := by
-    rw [hasRec_modRec _ _ _ _ (by intro _; rfl)]; exact h1
-  have hr : ((w.k.modRec rid fun r => { r with eSched := none }).modRec rid fun r => { r with expT := w.db.now + 30 }).getR rid =
-      { (w.k.getR rid) with eSched := none, expT := w.db.now + 30 } := by
-    rw [getR_modRec_same _ _ _ (by intro _; rfl) h1, getR_modRec_same _ _ _ (by intro _; rfl) hm]
+  have hr : (w.k.modRec rid fun r => { r with expT := w.db.now + 30 }).getR rid = { (w.k.getR rid) with expT := w.db.now + 30 } := by
+    rw [getR_modRec_same _ _ _ (by intro _; rfl) hm]
   unfold W.schedExpried
   simp only [modR_k, modR_db, modR_out, modR_gone, hr]
   refine ⟨trivial, trivial, rfl, ?_, rfl, rfl, rfl, trivial⟩
-  have hs := getR_setRec_same ((w.k.modRec rid fun r => { r with eSched := none }).modRec rid fun r => { r with expT := w.db.now + 30 })
+  have hs := getR_setRec_same (w.k.modRec rid fun r => { r with expT := w.db.now + 30 })
     { rid := rid, hid := (w.k.getR rid).hid, cmd := (w.k.getR rid).cmd, data := (w.k.getR rid).data, conn := (w.k.getR rid).conn,
       depth := (w.k.getR rid).depth, startT := (w.k.getR rid).startT,
       expT := (Slock.Engine.wheelAdd w.db.eCheck w.db.seq (w.db.now + 30) (w.k.getR rid).eChecked).1,
